@@ -107,7 +107,7 @@ def main():
         ],
         "checks": checks,
         "not_applicable": na,
-        "notes": "Technique family: deterministic simulation with fault injection. See DESIGN.md; known_findings.json lists genuine defects (status fixed / known). Unguarded repairs in /repo (commit messages start with fix:): c8ccc8f 2183fb2 266db9f 7d54976 f26a00c e1833a0 59ee085 f3b67ba ea9ea30 25f917a b212496 575af89. Guarded hook: d6804a8 (--cfg pc_verif). seeded/ holds 82 independently written property-breaking changes with the checks that catch them.",
+        "notes": "Technique family: deterministic simulation with fault injection. See DESIGN.md; known_findings.json lists genuine defects (status fixed / known). Unguarded repairs in /repo (commit messages start with fix:): c8ccc8f 2183fb2 266db9f 7d54976 f26a00c e1833a0 59ee085 f3b67ba ea9ea30 25f917a b212496 575af89 33261f7 af6a4ca b0c785d. Guarded hook: d6804a8 (--cfg pc_verif). seeded/ holds 82 independently written property-breaking changes with the checks that catch them.",
     }
     json.dump(m, open("/verif/MANIFEST.json","w"), indent=1)
     print("MANIFEST.json:", len(checks), "checks,", len(na), "not claimed")
